@@ -36,7 +36,8 @@ BUDGET = {"quick": 60, "thorough": 1200}
 CHUNK = 8
 SITES = ["ske_sig", "srv_cv13", "cli_cv12", "cli_cv13", "pha", "srp",
          "psk", "finished", "rsa_kx", "checker"]
-PROBES = SITES + ["flip", "empty", "trunc", "extend", "other_scheme",
+PROBES = SITES + ["flip", "empty", "trunc", "extend", "degenerate",
+                  "other_scheme",
                   "other_transcript", "wrong_key", "omitted", "honest_ok"]
 COMPONENTS_REAL = ["tlslite verification code of both roles, key classes"]
 COMPONENTS_STUB = ["socket", "os.urandom", "clock", "byzantine peer"]
@@ -67,6 +68,16 @@ def mutate_sig(sig, cls, ch):
         return b[:-1 - ch.draw(min(8, max(1, len(b) - 1)), "m.n")]
     if cls == "extend":
         return b + bytearray(1 + ch.draw(4, "m.n"))
+    if cls == "degenerate":
+        # structurally valid but degenerate values: DER (r, s) with 0 / 1,
+        # all-zero / all-one blobs of the original length, integer 1
+        n = len(b)
+        opts = [bytes.fromhex("3006020101020100"),      # r=1, s=0
+                bytes.fromhex("3006020100020100"),      # r=0, s=0
+                bytes.fromhex("3006020100020101"),      # r=0, s=1
+                bytes.fromhex("3006020101020101"),      # r=1, s=1
+                bytes(n), b"\xff" * n, bytes(max(0, n - 1)) + b"\x01"]
+        return bytearray(opts[ch.draw(len(opts), "m.deg")])
     raise ValueError(cls)
 
 
@@ -217,13 +228,14 @@ def run(job, streams=None):
     pre_setup = None
     post = None
     SIGCLS = ["flip", "empty", "trunc", "extend", "other_scheme",
-              "other_transcript", "wrong_key", "omitted"]
+              "other_transcript", "wrong_key", "omitted", "degenerate",
+              "degenerate"]
 
     def sig_rule(clsname, attr_sig, cls_):
         def rule(msg, c):
             if type(msg).__name__ != clsname:
                 return None
-            if cls_ in ("flip", "empty", "trunc", "extend"):
+            if cls_ in ("flip", "empty", "trunc", "extend", "degenerate"):
                 setattr(msg, attr_sig, mutate_sig(getattr(msg, attr_sig),
                                                   cls_, ch))
                 fired.append(cls_)
@@ -240,7 +252,8 @@ def run(job, streams=None):
             "CertificateVerify"
         if site == "ske_sig" and cls == "omitted":
             cls = "empty"
-        if cls in ("flip", "empty", "trunc", "extend", "omitted"):
+        if cls in ("flip", "empty", "trunc", "extend", "omitted",
+                   "degenerate"):
             rules.append(sig_rule(clsname, "signature", cls))
         elif cls == "other_scheme":
             def rule(msg, c):
